@@ -117,7 +117,19 @@ def main():
             import pandas as pd
             from fastparquet import writer
             data = pd.Series(np.array(c["vals"], dtype=c["dtype"]))
-            return ["ok", bytes(writer.encode_dict(data, None)).hex()]
+            enc = bytes(writer.encode_dict(data, None))
+            # decoded back by the real decoder, the way core.read_data_page does for a foreign file (general hybrid branch)
+            back = None
+            if len(enc) > 1 and c["vals"] and not exact and data.values.dtype.itemsize <= 2:
+                # (32-bit codes: the general hybrid path is the known width >= 25 defect; fastparquet reads its own pages
+                #  through the array-view fast path, which the structural check of the oracle covers)
+                raw = np.frombuffer(enc, dtype=np.uint8).copy()
+                fi = NumpyIO(raw)
+                width = fi.read_byte()
+                o = np.full(len(c["vals"]), -1, dtype=np.int32)
+                cencoding.read_rle_bit_packed_hybrid(fi, width, len(enc) - 1, NumpyIO(o.view(np.uint8)), 4)
+                back = [int(x) for x in o]
+            return ["ok", enc.hex(), back]
         if fn == "convert_bool":
             import pandas as pd
             from fastparquet import writer, parquet_thrift
